@@ -804,6 +804,8 @@ class State:
                     return lit((recv[2] == good) == want_good, 'bool')
                 return ('call', p, (recv,))
             if last in ('as_ref', 'as_mut', 'as_deref', 'cloned', 'copied', 'take'):
+                if last == 'take' and self.policy.is_effect(p):
+                    self.effect('call', p, a, node)
                 return recv
             if last in ('map', 'and_then', 'map_err', 'ok_or', 'ok_or_else', 'ok', 'filter', 'context', 'with_context',
                         'or_else', 'map_or'):
